@@ -31,7 +31,7 @@ fn topic(faults: bool, asyncness: u8, cancel: bool, lifecycle: bool, dynamic_sub
 }
 
 fn cache(f: impl FnOnce(&mut CacheProfile)) -> CacheFamily {
-  let mut p = CacheProfile { faults: true, expiry: false, loader: false, listener: false, bounded: false, async_clients: true, bulk_ops: true, loader_race: false };
+  let mut p = CacheProfile { faults: true, expiry: false, loader: false, listener: false, bounded: false, async_clients: true, bulk_ops: true, loader_race: false, reinsert_race: false };
   f(&mut p);
   CacheFamily { profile: p }
 }
@@ -102,6 +102,9 @@ pub fn check_spec(id: &str) -> Option<CheckSpec> {
         // the bare register / re-check / park vs publish / notify handshake on a channel that is full or empty
         // most of the time (capacity 1-2, blocking single-item forms only)
         lane("conc/sync/liveness/tight-handshake", conc("sync-live-tight", |p| { p.asyncness = 0; p.cancel = false; p.lifecycle = false; p.hold_open_pct = 30; p.caps = vec![1, 1, 2]; p.blocking_only = true; p.flavours = vec![Flavour::SpscBounded, Flavour::MpscBounded, Flavour::MpmcBounded, Flavour::SpscRendezvous, Flavour::MpscRendezvous, Flavour::MpmcRendezvous]; }), 300_000, 9_000_000),
+        // consumers that go idle (keep the handle, receive nothing) at moments when all they drained is visible to the
+        // producers: a sender that can proceed must do so without further help from the receiving side
+        lane("conc/sync/liveness/idle-consumer", conc("sync-live-idle", |p| { p.asyncness = 0; p.cancel = false; p.hold_open_pct = 0; p.caps = vec![1, 2, 2, 3]; p.idle_consumer = true; p.flavours = vec![Flavour::SpscBounded, Flavour::MpscBounded, Flavour::MpmcBounded]; }), 200_000, 6_000_000),
         lane("spmc/sync/liveness", spmc(true, 0, false, true), 150_000, 4_500_000),
         lane("topic/sync/liveness", topic(true, 0, false, true, true), 100_000, 3_000_000),
       ],
@@ -117,6 +120,7 @@ pub fn check_spec(id: &str) -> Option<CheckSpec> {
         // several async parties on a tiny multi-consumer queue, half of the operations re-polled while pending: a future
         // that completes on its own while a notifier has already picked its queued waiter must pass that wake on
         lane("conc/async/liveness/contended-repolled", conc("async-live-repoll", |p| { p.asyncness = 1; p.timed = false; p.hold_open_pct = 0; p.caps = vec![1, 1, 2]; p.spurious_poll_in = 2; p.flavours = vec![Flavour::MpmcBounded, Flavour::MpmcUnbounded, Flavour::MpscBounded, Flavour::MpmcRendezvous]; }), 300_000, 9_000_000),
+        lane("conc/mixed/liveness/idle-consumer", conc("mixed-live-idle", |p| { p.asyncness = 2; p.hold_open_pct = 0; p.caps = vec![1, 2, 2, 3]; p.idle_consumer = true; p.flavours = vec![Flavour::SpscBounded, Flavour::MpscBounded, Flavour::MpmcBounded]; }), 200_000, 6_000_000),
         lane("spmc/async/liveness", spmc(true, 1, true, true), 100_000, 3_000_000),
         lane("spmc/mixed/liveness", spmc(true, 2, true, true), 100_000, 3_000_000),
         lane("topic/mixed/liveness", topic(true, 2, true, true, true), 30_000, 1_000_000),
@@ -202,6 +206,9 @@ pub fn check_spec(id: &str) -> Option<CheckSpec> {
         lane("cache/bounded/loader", cache(|p| { p.bounded = true; p.loader = true; }), 30_000, 900_000),
         lane("cache/bounded/no-faults", cache(|p| { p.bounded = true; p.faults = false; }), 20_000, 600_000),
         lane("cache/bounded/expiry", cache(|p| { p.bounded = true; p.expiry = true; p.listener = true; }), 20_000, 600_000),
+        // insert / remove / re-insert of the same one or two keys from several threads on a tiny cache: the policy must hear
+        // about a removal before a re-insert of the key can be admitted
+        lane("cache/bounded/reinsert-race", cache(|p| { p.bounded = true; p.reinsert_race = true; }), 100_000, 1_500_000),
       ],
       assumptions: CACHE_ASSUME.iter().map(|s| s.to_string()).collect(),
       notes: vec!["quiescence = all clients joined, run_maintenance() repeated until residents and current_cost stop changing (<=40 passes)".into()],
@@ -262,9 +269,11 @@ pub fn check_spec(id: &str) -> Option<CheckSpec> {
       property: id.into(),
       level: "exploration",
       lanes: vec![
-        lane("log/routing", crate::logpipe::LogFamily { faults: true, stop_anytime: false }, 40_000, 1_500_000),
-        lane("log/stop-anytime", crate::logpipe::LogFamily { faults: true, stop_anytime: true }, 40_000, 1_500_000),
-        lane("log/stop-anytime/no-faults", crate::logpipe::LogFamily { faults: false, stop_anytime: true }, 20_000, 700_000),
+        // (the pipeline runs ~30 000 cases / s: the two findings of this family needed ~10^5-10^6 cases, so the quick
+        // tier takes a million)
+        lane("log/routing", crate::logpipe::LogFamily { faults: true, stop_anytime: false }, 200_000, 1_500_000),
+        lane("log/stop-anytime", crate::logpipe::LogFamily { faults: true, stop_anytime: true }, 500_000, 3_000_000),
+        lane("log/stop-anytime/no-faults", crate::logpipe::LogFamily { faults: false, stop_anytime: true }, 300_000, 1_500_000),
       ],
       assumptions: vec![
         "shuttle executes every atomic as SeqCst: a change that only weakens a memory ordering is invisible".into(),
